@@ -355,6 +355,9 @@ def requests(named):
     out["deletewhere"] = ([["deletewhere", [(S, P, O, "d")]]], 0)
     out["deletewhere-const"] = ([["deletewhere", [(S, P, C(0), "d")]]], 1)
     out["deletewhere-2"] = ([["deletewhere", [(S, P, O, "d"), (O, Q, Z, "d")]]], 0)
+    # same shape, other variable names (rdflib orders the patterns by name-dependent keys: the evaluation order changes)
+    out["deletewhere-2-xyz"] = ([["deletewhere", [(V("x"), P, V("y"), "d"), (V("y"), Q, V("z"), "d")]]], 0)
+    out["deletewhere-2-zyx"] = ([["deletewhere", [(V("z"), P, V("y"), "d"), (V("y"), Q, V("x"), "d")]]], 0)
     out["modify-swap"] = ([["modify", None, [], [(S, P, O, "d")], [(O, P, S, "d")], A]], 0)
     out["modify-shift"] = ([["modify", None, [], [(S, P, O, "d")], [(O, P, C(0), "d")], A]], 1)
     out["modify-insert-deleted"] = ([["modify", None, [], [(S, P, O, "d")], [(C(0), P, C(1), "d")], A]], 2)
@@ -428,6 +431,8 @@ def obligations(tier, seed):
                     shapes = shapes[:2] if (tier == "quick" or n == 3) else shapes
                 else:
                     shapes = shapes[:1] if tier == "quick" else shapes
+                if tier == "quick" and name.startswith("deletewhere-2"):
+                    shapes = list(shapes) + [data_shapes(named, 3)[0 if not named else 1]]
                 for ds in shapes:
                     dd = [(d, "d") for d in ds] if not named else ds
                     tag = "".join(p for p, _ in dd) if not named else ",".join("%s@%s" % x for x in dd)
